@@ -16,7 +16,8 @@
  *   rulekey <0|1>       1: lookup_rule fills llb_rule_t.key with a key different from the one looked up (the binding ignores it)
  * Extra output lines: "status <k> <kind>" (update_status callback), "dbsnap <n>" (copy of the database file after build n
  * in <workdir>/snap-<n>.db, dumped by the Python side), and with env CAPI_TRACE=1 "raw ..." lines carrying the exact bytes
- * of every C call / callback argument.
+ * of every C call / callback argument.  "BAD-..." lines report a broken pass-through that has no C++ counterpart: a callback
+ * received another engine_context / rule pointer than the registered one, or a destroy_context callback did not run exactly once.
  */
 #define _GNU_SOURCE
 #include <llbuild/llbuild.h>
